@@ -164,3 +164,24 @@ func (fr *Frame) leafCellsAt(t types.Type, a Term) []cell {
 	rec(t, a)
 	return out
 }
+
+// closureEscapesAnywhere: is some MakeClosure of fn (in its parent) used in a way that is not executed in context?
+func closureEscapesAnywhere(sh *Shared, cs *ContractSet, fn *ssa.Function) bool {
+	parent := fn.Parent()
+	if parent == nil {
+		return false
+	}
+	tmp := newUnit(sh, cs, parent)
+	for _, b := range parent.Blocks {
+		for _, in := range b.Instrs {
+			mc, ok := in.(*ssa.MakeClosure)
+			if !ok || mc.Fn != ssa.Value(fn) {
+				continue
+			}
+			if tmp.closureEscapes(mc, 0) {
+				return true
+			}
+		}
+	}
+	return false
+}
